@@ -1,6 +1,8 @@
 import UmProofs.CoordProv
 import UmProofs.CoordSync
 import UmProofs.BrokerDefs
+import UmProofs.BrokerSlotsPlanJ
+import UmProofs.BrokerEpochStep
 /-!
 # C07 — what processes hold and what is in flight is never ahead of the broker
 
@@ -13,10 +15,16 @@ namespace Um.Coord
 open Um Um.Broker
 
 def MsgOkC (b : Store) (limit : Nat) (compress : Bool) (a : String) (e : Nat) (m : CMeta) : Prop :=
+  e ≤ b.globalEpoch ∧
   ∀ v, proxyView b a limit = R.ok (some v) → e < v.epoch ∨ (e = v.epoch ∧ m = mkCMeta compress v)
 
 def MsgOkR (b : Store) (limit : Nat) (a : String) (e : Nat) (r : RMeta) : Prop :=
+  e ≤ b.globalEpoch ∧
   ∀ v, proxyView b a limit = R.ok (some v) → e < v.epoch ∨ (e = v.epoch ∧ r = mkRMeta v)
+
+/-- the broker states the discharge lemmas speak about: reachable, and every cluster satisfies the store
+invariants of C01 (true of every boundedly reachable store, `Plan.cinv_reachableB`) -/
+def GoodB (b : Store) : Prop := Reachable b ∧ Um.Broker.Plan.AllCInv b
 
 /-- one broker transition keeps "not ahead" (for every address and payload) -/
 def Versioned (limit : Nat) (compress : Bool) (b b' : Store) : Prop :=
@@ -26,10 +34,10 @@ def Versioned (limit : Nat) (compress : Bool) (b b' : Store) : Prop :=
 /-- the hypothesis taken from C04: along every broker history, the epoch served for an address never
 decreases, and an equal epoch means equal content -/
 def EpochVersioning (limit : Nat) (compress : Bool) : Prop :=
-  ∀ b op, Reachable b → Versioned limit compress b (Broker.step b op)
+  ∀ b op, GoodB b → Versioned limit compress b (Broker.step b op)
 
 structure Coherent (s : Sys) : Prop where
-  reachable : Reachable s.broker
+  reachable : GoodB s.broker
   served : ∀ x ∈ s.served, MsgOkC s.broker s.limit s.compress x.addr x.epoch x.cm ∧
     MsgOkR s.broker s.limit x.addr x.epoch x.rm
   proc : ∀ a p, s.findP a = some p → MsgOkC s.broker s.limit s.compress a p.epoch p.cmeta ∧
@@ -51,25 +59,38 @@ theorem addFailure_step (b : Store) (a r : String) : (addFailure b a r 0).1 = Br
   unfold Broker.step stepFull
   rfl
 
-/-- a delivered call moves the broker by at most one `Op` step -/
+theorem goodB_commit {b : Store} (h : GoodB b) (n : String) (e : Nat) (rl : Um.RangeList) (tn cl : Bool) :
+    GoodB (Broker.step b (.commit n e rl tn cl)) :=
+  ⟨Reachable.step _ h.1, Um.Broker.Plan.allCInv_step h.2 (storeInv_commitMigration b n rl e tn cl h.2)⟩
+
+theorem goodB_failover {b : Store} (h : GoodB b) (a ch : String) : GoodB (Broker.step b (.failover a ch)) :=
+  ⟨Reachable.step _ h.1, Um.Broker.Plan.allCInv_step h.2 (storeInv_replaceFailedProxy b a ch h.2)⟩
+
+theorem goodB_addFailure {b : Store} (h : GoodB b) (a r : String) (t : Int) :
+    GoodB (Broker.step b (.addFailure a r t)) :=
+  ⟨Reachable.step _ h.1, Um.Broker.Plan.allCInv_step h.2 (storeInv_addFailure b a r t h.2)⟩
+
+/-- a delivered call moves the broker by at most one `Op` step, which keeps `GoodB` -/
 theorem exec_broker (s : Sys) (c : Call) (ch : String) :
-    (exec s c ch).1.broker = s.broker ∨ ∃ op, (exec s c ch).1.broker = Broker.step s.broker op := by
+    (exec s c ch).1.broker = s.broker ∨
+    ∃ op, (exec s c ch).1.broker = Broker.step s.broker op ∧ (GoodB s.broker → GoodB (Broker.step s.broker op)) := by
   cases c with
   | clusterNames off => exact Or.inl rfl
   | cluster name => simp only [exec]; split <;> exact Or.inl rfl
   | proxyAddrs off => exact Or.inl rfl
   | failedProxies => exact Or.inl rfl
   | getProxy a => simp only [exec]; split <;> exact Or.inl rfl
-  | addFailure a r => exact Or.inr ⟨_, addFailure_step _ _ _⟩
+  | addFailure a r => exact Or.inr ⟨_, addFailure_step _ _ _, fun h => goodB_addFailure h _ _ _⟩
   | getFailures => exact Or.inl rfl
   | replaceProxy a =>
     right
-    refine ⟨.failover a ch, ?_⟩
+    refine ⟨.failover a ch, ?_, fun h => goodB_failover h _ _⟩
     simp only [exec]
     split <;> exact keepOnPanic_replace _ _ _
   | commit t =>
     right
-    refine ⟨.commit t.cluster (taskEpoch t) t.sr.ranges (match t.sr.tag with | .none => true | _ => false) false, ?_⟩
+    refine ⟨.commit t.cluster (taskEpoch t) t.sr.ranges (match t.sr.tag with | .none => true | _ => false) false, ?_,
+      fun h => goodB_commit h _ _ _ _ _⟩
     simp only [exec]
     split
     · exact keepOnPanic_commit _ _ _ _ _
@@ -106,15 +127,16 @@ theorem exec_broker (s : Sys) (c : Call) (ch : String) :
 
 theorem coherent_broker_move {s t : Sys} (hp : t.proxies = s.proxies) (hs : t.served = s.served)
     (hl : t.limit = s.limit) (hc : t.compress = s.compress)
-    (hb : t.broker = s.broker ∨ ∃ op, t.broker = Broker.step s.broker op)
+    (hb : t.broker = s.broker ∨
+      ∃ op, t.broker = Broker.step s.broker op ∧ (GoodB s.broker → GoodB (Broker.step s.broker op)))
     (hev : EpochVersioning s.limit s.compress) (h : Coherent s) : Coherent t := by
   have hfind : ∀ a, t.findP a = s.findP a := fun a => by unfold Sys.findP; rw [hp]
-  rcases hb with hb | ⟨op, hb⟩
+  rcases hb with hb | ⟨op, hb, hgood⟩
   · refine ⟨by rw [hb]; exact h.reachable, ?_, ?_⟩
     · intro x hx; rw [hs] at hx; rw [hb, hl, hc]; exact h.served x hx
     · intro a p hp'; rw [hfind] at hp'; rw [hb, hl, hc]; exact h.proc a p hp'
   · have hv := hev s.broker op h.reachable
-    refine ⟨by rw [hb]; exact Reachable.step op h.reachable, ?_, ?_⟩
+    refine ⟨by rw [hb]; exact hgood h.reachable, ?_, ?_⟩
     · intro x hx
       rw [hs] at hx
       rw [hb, hl, hc]
@@ -160,7 +182,10 @@ theorem exec_coherent (s : Sys) (c : Call) (ch : String) (hprov : ProvOk s c)
       · exact h.served x hx
       · simp only [List.mem_singleton] at hx
         subst hx
-        refine ⟨?_, ?_⟩
+        have hle : v.epoch ≤ s.broker.globalEpoch := by
+          obtain ⟨p, _, e⟩ := Um.Broker.Epoch.proxyView_epoch hv
+          rw [e]; exact Um.Broker.Epoch.servedEpoch_le (Um.Broker.Epoch.epochInv_reachable _ h.reachable.1) p
+        refine ⟨⟨hle, ?_⟩, ⟨hle, ?_⟩⟩
         · intro w hw
           rw [hv] at hw
           have : v = w := by injection hw with h1; injection h1
@@ -277,6 +302,6 @@ theorem Coherent.good {s : Sys} (h : Coherent s) {a : String} {v : VProxy} {p : 
     (hv : proxyView s.broker a s.limit = R.ok (some v)) (hp : s.findP a = some p) (hup : p.up = true)
     (hh : hostsOk p.host (mkCMeta s.compress v) = true) (hr : replHostsOk p.host (mkRMeta v) = true) :
     PGood s.compress v p :=
-  ⟨hup, hh, hr, (h.proc a p hp).1 v hv, (h.proc a p hp).2 v hv⟩
+  ⟨hup, hh, hr, (h.proc a p hp).1.2 v hv, (h.proc a p hp).2.2 v hv⟩
 
 end Um.Coord
